@@ -153,12 +153,33 @@ def _sp_kaiser():
     return kaiser
 
 
+def _sp_flattop():
+    from scipy.signal.windows import flattop
+    return flattop
+
+
+def _hft95(L):
+    """HFT95 flat-top window (cosine sum, DFT-even): takes NEGATIVE values; sum w = L exactly in exact arithmetic"""
+    z = 2.0 * np.pi * np.arange(L) / max(L, 1)
+    return 1.0 - 1.9383379 * np.cos(z) + 1.3045202 * np.cos(2 * z) - 0.4028270 * np.cos(3 * z) + 0.0350665 * np.cos(4 * z)
+
+
+def _neglobe(L):
+    """hand-made window with negative lobes at both ends, deliberately non-symmetric (sum w ~ 0.355 L > 0, sum |w| differs from it by ~ 5 %)"""
+    return np.hanning(L) - 0.12 - 0.05 * np.arange(L) / max(L, 1)
+
+
+# windows that take negative values (sum |w| != sum w): the amplitude-calibration (flat-top) family and a hand-made one; main-lobe half width in bins
+NEG_WINDOWS = {"flattop": 5.0, "hft95": 5.0, "neglobe": 2.0}
+
+
 # name -> (what is passed to speckit as `win`, what is passed to _an.window, needs psll)
 def win_table() -> Dict[str, Tuple[Any, Any, bool]]:
     return {"kaiser": ("kaiser", "kaiser", True), "Kaiser": ("Kaiser", "kaiser", True), "np_kaiser": (np.kaiser, "kaiser", True),
             "sp_kaiser": (_sp_kaiser(), "kaiser", True), "hann": ("hann", "hann", False), "hanning": ("hanning", "hann", False),
             "blackman": (np.blackman, np.blackman, False), "hamming": (np.hamming, np.hamming, False),
-            "bartlett_p": (_bartlett_p, _bartlett_p, False), "rect": (np.ones, np.ones, False), "ramp": (_ramp, _ramp, False)}
+            "bartlett_p": (_bartlett_p, _bartlett_p, False), "rect": (np.ones, np.ones, False), "ramp": (_ramp, _ramp, False),
+            "flattop": (_sp_flattop(), _sp_flattop(), False), "hft95": (_hft95, _hft95, False), "neglobe": (_neglobe, _neglobe, False)}
 
 
 def win_opts(name: str, psll: Optional[float]) -> Dict[str, Any]:
@@ -218,9 +239,14 @@ def full(P: C.Part) -> bool:
 
 
 # ================================================================ (1) sinusoid calibration
-def gen_calib(rng: np.random.Generator, thorough: bool, order: Optional[int] = None) -> Dict[str, Any]:
+def gen_calib(rng: np.random.Generator, thorough: bool, order: Optional[int] = None, neg: bool = False) -> Dict[str, Any]:
+    """neg: a callable window that takes negative values (flat-top family / hand-made) instead of a Kaiser window; the frequency keeps the
+    main-lobe distance of THAT window from 0 and Nyquist, and the bound is evaluated with rho measured from the window actually used"""
     psll = float(rng.choice([60.0, 100.0, 200.0, float(rng.uniform(60, 200)), float(rng.uniform(60, 200))]))
     hw = hw_bins(psll)
+    negwin = str(rng.choice(sorted(NEG_WINDOWS)))
+    if neg:
+        hw = NEG_WINDOWS[negwin]
     Lmin = max(16, int(math.ceil(4 * (hw + 1.5))) + 1)
     Lmax = 4096 if thorough else 1500
     L = int(round(math.exp(rng.uniform(math.log(Lmin), math.log(Lmax)))))
@@ -244,7 +270,7 @@ def gen_calib(rng: np.random.Generator, thorough: bool, order: Optional[int] = N
             "fs": fs, "f0": m0 * fs / L, "psll": psll, "order": order,
             "olap": None if rng.random() < 0.5 else float(rng.choice([0.0, 0.5, float(rng.uniform(0, 0.9))])),
             "via": via, "cross": bool(rng.random() < 0.3), "B": float(10 ** rng.uniform(-3, 3)), "phi2": float(rng.uniform(0, 2 * np.pi)),
-            "win": str(rng.choice(["kaiser", "kaiser", "np_kaiser", "sp_kaiser", "Kaiser"]))}
+            "win": str(rng.choice(["kaiser", "kaiser", "np_kaiser", "sp_kaiser", "Kaiser"])) if not neg else negwin}
 
 
 def check_calib(P: C.Part, c: Dict[str, Any]) -> None:
@@ -285,7 +311,8 @@ def check_calib(P: C.Part, c: Dict[str, Any]) -> None:
     # the window handed to the kernel: its sums and the reported ENBW
     for nm, ob, ex in (("S12", float(res.S12[0]), S1 * S1), ("S2", float(res.S2[0]), S2), ("ENBW", float(res.ENBW[0]), fs * S2 / (S1 * S1))):
         if not abs(ob - ex) <= 1e-10 * abs(ex):
-            viol(P, f"{nm} = {ob!r} but the Kaiser window (psll={psll}, L={L}, DFT-even, beta=alpha*pi) gives {ex!r}"
+            viol(P, f"{nm} = {ob!r} but the " + ("Kaiser window (psll={}, L={}, DFT-even, beta=alpha*pi)".format(psll, L) if win_table()[c["win"]][2] else
+                                                 "{} window (callable, rebuilt independently, L={})".format(c["win"], L)) + f" gives {ex!r}"
                  + (" = fs*sum(w^2)/(sum w)^2" if nm == "ENBW" else ""), dict(sig0, subclaim="enbw" if nm == "ENBW" else "window", field=nm), c,
                  observed=ob, expected=ex)
             return
@@ -294,8 +321,10 @@ def check_calib(P: C.Part, c: Dict[str, Any]) -> None:
     rho0 = abs(win_transform(w, w0)) * dirichlet_abs(L, w0) / (L * S1) if order == 0 else 0.0      # enters the order-0 bound only
     K = len(D)
     if rho > 0 and A > 0:
-        P.nontrivial.add(("calib", order, L, round(psll), min(K, 3), c["via"], c["cross"]))
+        P.nontrivial.add(("calib", order, L, round(psll) if win_table()[c["win"]][2] else c["win"], min(K, 3), c["via"], c["cross"]))
     P.hit(f"calib.order{order}")
+    if c["win"] in NEG_WINDOWS:
+        P.hit(f"calib.negative-lobe window.{c['win']}.order{order}.backend={c.get('backend')}")
     P.hit(f"calib.backend={c.get('backend')}.order{order}.{'cross' if c['cross'] else 'auto'}")
     if L > 4096:
         P.hit("calib.L>4096")
@@ -335,7 +364,7 @@ def check_calib(P: C.Part, c: Dict[str, Any]) -> None:
             P.hit("calib.bound-checked")
             tight(f"calibration(order {order}) |ps-A^2/2|/bound", abs(pso - tgt) / bound)
             if not abs(pso - tgt) <= bound:
-                viol(P, f"sinusoid of amplitude {amp:.6g} analysed at its own frequency (L={L}, bin {f0 * L / fs:.3f}, psll={psll:.1f}, order={order}, K={K}): "
+                viol(P, f"sinusoid of amplitude {amp:.6g} analysed at its own frequency (L={L}, bin {f0 * L / fs:.3f}, win={c['win']}, psll={psll}, order={order}, K={K}): "
                         f"power spectrum = {pso!r}, expected A^2/2 = {tgt!r} within {bound:.3g} (rho={rho:.3g}, rho0={rho0:.3g})",
                      dict(sig0, subclaim="calibration", channel=nm), c, observed=pso, expected=tgt, tol=bound)
     if iscsd and not full(P):
@@ -858,7 +887,7 @@ ENTRIES = ["analyzer", "single-method", "compute_spectrum", "single-method-fres"
 PLAN_ENTRIES = ("analyzer", "compute_spectrum", "lpsd")
 SCHED6 = ["lpsd", "welch", "ltf", "revisit", "vectorized_ltf", "new_ltf"]
 OLAP_FORMS = ["omit", "float", "zero", "default", "high"]
-WIN7 = ["kaiser", "hann", "ramp", "default", "np_kaiser", "blackman", "sp_kaiser"]
+WINS = ["kaiser", "hann", "flattop", "ramp", "default", "hft95", "np_kaiser", "blackman", "neglobe", "sp_kaiser"]
 RECS = ["drift", "offset", "tone", "red", "noise"]
 LAY_X = ["2xN", "Nx2", "list", "2xN-F"]
 LAY_A = ["1d", "list", "strided", "1d"]
@@ -906,7 +935,7 @@ def gen_opt(rng: np.random.Generator, i: int, s: int, thorough: bool) -> Dict[st
     single = entry not in PLAN_ENTRIES
     N = int(rng.integers(200, 4000 if thorough else 1600))
     fs = float(rng.choice([1.0, 2.0, 1000.0, float(10 ** rng.uniform(-2, 4))]))
-    wn = WIN7[(i + i // 7 + s) % 7]
+    wn = WINS[(i + i // 7 + s) % len(WINS)]
     psll = float(rng.choice([60.0, 200.0, float(rng.uniform(60, 200)), float(rng.uniform(40, 200))])) if win_table().get(wn, (0, 0, False))[2] else None
     olf = OLAP_FORMS[(i + 2 * s) % 5]
     c: Dict[str, Any] = {"kind": "opt", "i": i, "dseed": int(rng.integers(0, 2 ** 31)), "fs": fs, "cross": cross, "order": order, "backend": backend,
@@ -1676,7 +1705,7 @@ def _oracle(ctx, intensive: bool = False, hints=()) -> C.Part:
                 break
             sub = np.random.default_rng(int(ctx.rng.integers(0, 2 ** 62)))
             if kind == "calib":
-                c = gen_calib(sub, ctx.thorough, order=[-1, 0, -1, 0, 1, 2][i % 6])
+                c = gen_calib(sub, ctx.thorough, order=[-1, 0, -1, 0, 1, 2][i % 6], neg=(i % 5 == 4))    # (5 coprime to 6 and to the backend cycle)
                 c["backend"] = BE4[(i + i // 6) % 4]          # every (order, backend) pair within 24 cases; auto / cross drawn by gen_calib
             elif kind == "enbw":
                 c = gen_enbw(sub, ctx.thorough)
